@@ -75,6 +75,10 @@ def clause_a(ctx, P):
             if not s["p"]["proj"] and s["p"]["l"] == nic:
                 k += 1
                 val = rtr.rvalue(s["r"], (b, i))
+                if fold(val) == 0:
+                    ctx.ob("C12a.F6.ip-check-armed", "%s|next_ip_check#%d" % (run.name, k), True, run.loc(b, i),
+                           "assignment of the constant 0 = 'disabled' sentinel: nothing is pending, no timer needed")
+                    continue
                 # add_timer(next_ip_check) follows on every path, except under `next_ip_check > 0` == false
                 pushes = [pb for (pb, kind, e) in push_sites(P, run) if kind == "timers" and _is_copy_of_local(run, pb, nic)]
                 bypass = guard_edges(P, run, lambda atom, outcome, bb: atom[0] == "binop" and atom[1] == "Gt" and fold(atom[3]) == 0 and outcome is False
@@ -197,6 +201,22 @@ def _only_empty_bypass(P, g, cb, b):
     return _unavoidable(g, cb, [b], bypass=byp, include_loop_head=True)
 
 
+def _unavoidable_outer(fn, cb, blocks):
+    """every path from cb to a return, or to the next iteration of the OUTERMOST loop around cb, passes `blocks`
+    (the registry's list persists across inner iterations; it must be drained before the registry goes out of scope)"""
+    blocks = set(blocks)
+    targets = set(fn.exits())
+    h = outer_loop_head(fn, cb)
+    if h is not None:
+        targets.add(h)
+    for s in fn.succs(cb):
+        if s in blocks:
+            continue
+        if fn.reachable(s, removed_blocks=blocks) & targets:
+            return False
+    return True
+
+
 def _check_new_timers_drained(ctx, P):
     n = 0
     for (g, cb, t) in P.call_sites_of("service_daemon::announce_service_on_intf"):
@@ -205,7 +225,7 @@ def _check_new_timers_drained(ctx, P):
         drains = [b for b, tt in g.calls() if method(cname(tt)) in ("drain", "append") and "Vec" in cname(tt)
                   and recv_mentions(P, g, b, tt, "new_timers", "DnsRegistry")]
         drains += [b for b, tt in g.calls() if name_matches(cname(tt), "mem::take") and recv_mentions(P, g, b, tt, "new_timers", "DnsRegistry")]
-        ok = bool(drains) and _unavoidable(g, cb, drains, include_loop_head=True)
+        ok = bool(drains) and _unavoidable_outer(g, cb, drains)
         k = sum(1 for (g2, cb2, _t) in P.call_sites_of("service_daemon::announce_service_on_intf") if g2 is g and cb2 <= cb)
         ctx.ob("C12a.F6.new-timers-drained", "%s|announce_service_on_intf#%d" % (g.name, k), ok, g.loc(cb),
                "after the announce attempt DnsRegistry.new_timers is drained into the timer heap on every path" if ok else
@@ -560,7 +580,7 @@ def _guard_fresh(P, fn, edge, use_bb, owner, field):
     while st:
         x = st.pop()
         for p_ in fn.preds(x):
-            if p_ not in back:
+            if p_ not in back and p_ != gb:       # paths that do not re-evaluate the guard
                 back.add(p_)
                 st.append(p_)
     between = (fwd & back) - {use_bb}
